@@ -29,6 +29,7 @@ type c13Evaluated struct {
 	label    string
 	info     map[string]any
 	findings []c13Finding
+	fresh    []c13Finding // findings not already present in the previous image (same crash window)
 	covers   []string // hook names whose firing left exactly these bytes (this image + following trivial ones)
 }
 
@@ -109,6 +110,7 @@ func (sc *c13Scenario) evaluate(sch *crypto.Scheme, pub kyber.Point, engine chai
 	var evs []*c13Evaluated
 	var prevEpoch uint32
 	var lastEv *c13Evaluated
+	prevWhats := map[string]bool{}
 	nontrivial := 0
 	for _, img := range all {
 		if img.Dir == "" {
@@ -137,6 +139,22 @@ func (sc *c13Scenario) evaluate(sch *crypto.Scheme, pub kyber.Point, engine chai
 		run.Eval(label + "|" + strings.Join(img.Changed, ","))
 		run.Seen("labels", label)
 		run.Count("images_checked", 1)
+		// a state that persists over several images is one crash window: it is reported where it first appears
+		whats := map[string]bool{}
+		var fresh []c13Finding
+		for _, f := range findings {
+			what := strings.TrimSuffix(f.Sig, "/"+label)
+			whats[what] = true
+			if img.Synth == "" && prevWhats[what] {
+				run.Count("findings_continuing_previous_window", 1)
+				continue
+			}
+			fresh = append(fresh, f)
+		}
+		if img.Synth == "" {
+			prevWhats = whats
+		}
+		ev.fresh = fresh
 		sc.report(ev)
 	}
 	run.Count("images_nontrivial", int64(nontrivial))
@@ -155,53 +173,57 @@ func (sc *c13Scenario) evaluate(sch *crypto.Scheme, pub kyber.Point, engine chai
 // (observed empty right after create/truncate, or a synthesized prefix) are reported under one signature per
 // (file kind, prefix) whatever the decoder makes of them.
 func (sc *c13Scenario) report(ev *c13Evaluated) {
-	if len(ev.findings) == 0 {
+	if len(ev.fresh) == 0 {
 		return
 	}
 	img := ev.img
 	ci := sc.caseInfo(img, ev.label)
 	ci["info"] = ev.info
-	torn := ""
+	tornKind, tornVar := "", ""
 	if img.Synth != "" {
 		p := strings.Split(img.Synth, ":")
-		torn = "C13/torn-file/" + p[1] + "/" + p[2]
-	} else if strings.HasPrefix(img.Hook, "key.save.created:") {
-		kind := strings.TrimPrefix(img.Hook, "key.save.created:")
-		rel := map[string]string{"group": c13RelGroup, "share": c13RelShare}[kind]
-		if rel != "" {
-			if fi, err := os.Stat(filepath.Join(img.Dir, rel)); err == nil && fi.Size() == 0 {
-				torn = "C13/torn-file/" + kind + "/len-0"
+		tornKind, tornVar = p[1], p[2]
+	} else if strings.HasPrefix(ev.label, "key.save.created:") {
+		tornKind, tornVar = strings.SplitN(strings.TrimPrefix(ev.label, "key.save.created:"), "@", 2)[0], "len-0"
+	}
+	for _, f := range ev.fresh {
+		if tornKind != "" {
+			// a torn state of one key file: one signature per (file, prefix); findings about anything else in a
+			// synthesized image are those of its base image and are reported there
+			if strings.HasPrefix(f.Sig, "C13/file-undecodable/"+tornKind+"/") {
+				sc.run.Violation("C13/torn-file/"+tornKind+"/"+tornVar, f.Detail+" (crash window "+ev.label+")", ci)
+			} else if img.Synth == "" {
+				sc.run.Violation(f.Sig, f.Detail, ci)
 			}
+			continue
 		}
-	}
-	if torn != "" {
-		var parts []string
-		for _, f := range ev.findings {
-			parts = append(parts, f.Sig+": "+f.Detail)
-		}
-		sc.run.Violation(torn, strings.Join(parts, " || "), ci)
-		return
-	}
-	for _, f := range ev.findings {
 		sc.run.Violation(f.Sig, f.Detail, ci)
 	}
 }
 
 var c13RestartPriority = []string{
-	"key.save.after:group", "key.save.created:share", "dkgstore.savefinished.after", "key.save.created:group",
-	"torn:share:len-1", "store.put.after", "dkgstore.save.after", "key.reset.mid", "final", "torn:group:half",
-	"key.save.after:share", "torn:group:len-1", "torn:share:half",
+	"key.save.after:group@reshare", "key.save.created:share@reshare", "dkgstore.savefinished.after@reshare",
+	"dkgstore.savefinished.after@dkg1", "key.save.created:group@reshare", "store.put.after", "key.reset.mid",
+	"key.reset.after", "dkgstore.save.after", "torn:share:half", "key.save.after:group@dkg1", "torn:group:half",
+	"key.save.after:share@reshare", "torn:share:len-1", "torn:group:len-1", "final",
 }
 
 // selectRestarts: all non-trivial images in the thorough tier; otherwise the last image of each label in priority
 // order, then whatever is needed to cover every hook name that fired, up to the case's budget.
 func (sc *c13Scenario) selectRestarts(evs []*c13Evaluated) []*c13Evaluated {
-	if sc.p.Restarts == 0 {
-		return evs
-	}
 	lastOf := map[string]*c13Evaluated{}
+	var eligible []*c13Evaluated
 	for _, ev := range evs {
+		// images of the forced-leave segment inherit its end state (no group, no share): only the windows of
+		// the leave itself are restarted from there
+		if sc.forcedSeq > 0 && ev.img.Seq >= sc.forcedSeq && !strings.HasPrefix(ev.label, "key.reset") {
+			continue
+		}
 		lastOf[ev.label] = ev
+		eligible = append(eligible, ev)
+	}
+	if sc.p.Restarts == 0 {
+		return eligible
 	}
 	var sel []*c13Evaluated
 	picked := map[*c13Evaluated]bool{}
